@@ -4,3 +4,6 @@ import XzVerif.Props.C06
 #print axioms Props.C06.C06_stream_roundtrip_marker
 #print axioms Props.C06.C06_stream_roundtrip_size
 #print axioms Props.C06.C06_stream_roundtrip_size_and_marker
+#print axioms Props.C06.C06_fill
+#print axioms Props.C06.C06_size_contract_write
+#print axioms Props.C06.C06_size_contract_close_and_roundtrip
